@@ -61,3 +61,11 @@ Definition x_split_c := split_c.
 Definition x_strip_set := strip_set.
 Definition x_lstrip_set := lstrip_set.
 Definition x_partition_c := partition_c.
+
+(* ---- scheme models ---- *)
+From UV.Schemes Require Import Common Registry.
+Definition xs_find := find_scheme.
+Definition xs_valid := x_valid.
+Definition xs_ctor := x_ctor.
+Definition xs_pair := x_pair.
+Definition xs_names := x_scheme_names.
